@@ -11,7 +11,7 @@ def run_one(kind, prop, patch):
     tmp = tempfile.mkdtemp(prefix="govc-selftest-")
     try:
         repo = os.path.join(tmp, "repo")
-        subprocess.run(["rsync", "-a", "--exclude", ".git", "/repo/", repo + "/"], check=True)
+        subprocess.run(["rsync", "-a", "--exclude", ".git", os.environ.get("SELFTEST_REPO", "/repo").rstrip("/") + "/", repo + "/"], check=True)
         r = subprocess.run(["patch", "-p1", "-s", "-d", repo, "-i", patch], capture_output=True, text=True)
         if r.returncode != 0:
             return (kind, prop, patch, "PATCH-FAILED", r.stdout + r.stderr)
